@@ -1,0 +1,7 @@
+//go:build verif
+
+package nts
+
+// VerifC10Pos exposes the position of the authenticator extension field found by
+// DecodePacket (the length of the associated data passed to the AEAD).
+func (a *Authenticator) VerifC10Pos() int { return a.pos }
